@@ -220,7 +220,10 @@ void sim::engine_eof(RunCtx& cx) {
                 }
         }
         bool intact = n == file.size() && kind != 4 && kind != 5;
-        if (intact) {
+        if (kind == 5 && n >= file.size() && got.end_type == "eof" && got.blocks.size() == rf.blocks.size()) {
+            // the error position lies behind the data and the reader never had to read that far
+            cx.ctr->add("probe.read_error_position_never_reached");
+        } else if (intact) {
             if (got.end_type != "eof") cx.violation("C05", "C05/I22/intact-file-not-read" + feat, where + ": ended with " + got.end_type + " " + got.end_what);
         } else if (got.end_type == "eof" || got.end_type == "runaway") {
             cx.violation("C05", "C05/I22/end-of-input-not-detected" + feat, where + ": reader reported a clean end of file (" + got.end_type + ")");
